@@ -526,3 +526,94 @@ Example boot_example :
      ScheduleJob 1 2 2 1; MarkComplete 1 2 2 1 Success None (Some 0) 0;
      ScheduleJob 1 3 3 1; MarkComplete 1 3 3 1 Success None (Some 0) 0].
 Proof. vm_compute. reflexivity. Qed.
+
+(* ------------------------------------------------------------------ statements over good histories (for Props_C39) *)
+
+Lemma drive_n_length w n : forall s, (length (drive_n w n s) <= n)%nat.
+Proof. induction n as [|n IH]; intros s; cbn [drive_n length]; [lia|]. destruct (drive w s); cbn [length]; [specialize (IH (fst (step s o))) |]; lia. Qed.
+
+Lemma mu_same_core s s' : StepFrame.same_core s s' -> mu s' = mu s.
+Proof.
+  intros C. unfold mu. rewrite (StepFrame.sc_jobs _ _ C). unfold wt, jcommitted, committed, find_update.
+  rewrite (StepFrame.sc_updates _ _ C). reflexivity.
+Qed.
+
+(** the finishing continuation is short: two autoscaler messages at most, and at most [mu s] scheduler / canceller / worker
+    messages (each job needs at most: release by its parents, one schedule, one completion) *)
+Lemma finish_length w s : Z.of_nat (length (finish w s)) <= 2 + mu s.
+Proof.
+  unfold finish. cbv zeta. rewrite app_length, (mu_same_core _ _ (boot_core s)).
+  pose proof (drive_n_length w (Z.to_nat (mu s)) (run_from s (boot_ops s))) as H1. pose proof (mu_nonneg s) as H2.
+  assert (H3 : (length (boot_ops s) <= 2)%nat) by (unfold boot_ops; destruct (active_inst s); cbn [length]; lia).
+  lia.
+Qed.
+
+Theorem no_deadlock ops : good_history ops ->
+  forall x0, In x0 (jobs (run ops)) -> jcommitted (run ops) x0 = true -> terminal (j_state x0) = false ->
+  exists x, In x (jobs (run ops)) /\ jcommitted (run ops) x = true /\
+            (j_state x = Ready \/ j_state x = Creating \/ j_state x = Running).
+Proof.
+  intros G x0 H0 C0 T0. destruct (exists_live_nonpending (run ops) x0 (DInv_reachable ops G) H0 C0 T0) as (x & Hx & L).
+  apply live_job_spec in L. exists x. tauto.
+Qed.
+
+Theorem driver_step_progress w ops x :
+  verdict_ok w -> good_history ops -> has_active (run ops) ->
+  In x (jobs (run ops)) -> jcommitted (run ops) x = true ->
+  (j_state x = Ready \/ j_state x = Creating \/ j_state x = Running) ->
+  exists o, op_for w (run ops) x = Some o /\ good_history (ops ++ [o]) /\ mu (run (ops ++ [o])) < mu (run ops) /\
+            find_job (run (ops ++ [o])) (j_batch x) (j_id x) = Some (next_row w (run ops) x) /\ has_active (run (ops ++ [o])).
+Proof.
+  intros W G A Hx Cx M. pose proof (DInv_reachable ops G) as D.
+  destruct (op_for_progress w (run ops) x W D A Hx Cx M) as (o & Eo & Go & DS & Lt).
+  exists o. rewrite run_snoc. split; [exact Eo|]. split; [|split; [exact Lt|split; [|exact (dstep_active _ _ _ _ DS A)]]].
+  - unfold good_history. apply good_from_app. split; [exact G|]. rewrite <- Cancel.run_run_from. cbn [good_from]. auto.
+  - destruct (dstep_find_job _ _ _ _ (j_batch x) (j_id x) DS) as (h & Fh & Hhx & _). rewrite Fh, (in_find_job _ x D Hx). cbn. congruence.
+Qed.
+
+Theorem can_always_finish_bounded w ops :
+  verdict_ok w -> good_history ops ->
+  let ext := finish w (run ops) in
+  good_history (ops ++ ext) /\
+  (forall x, In x (jobs (run (ops ++ ext))) -> jcommitted (run (ops ++ ext)) x = true -> terminal (j_state x) = true) /\
+  (forall bt, In bt (batches (run (ops ++ ext))) -> b_running bt = false) /\
+  (forall gr, In gr (groups (run (ops ++ ext))) -> g_running gr = false) /\
+  Z.of_nat (length ext) <= 2 + mu (run ops).
+Proof.
+  intros W G ext. destruct (can_always_finish w ops W G) as (G' & AD & Hb & Hg). fold ext in G', AD, Hb, Hg.
+  split; [exact G'|]. split; [exact AD|]. split; [exact Hb|]. split; [exact Hg | apply finish_length].
+Qed.
+
+Theorem always_run_runs_history w ops b j x :
+  verdict_ok w -> good_history ops ->
+  find_job (run ops) b j = Some x -> j_always x = true -> jcommitted (run ops) x = true ->
+  (j_state x = Pending \/ j_state x = Ready) ->
+  let s' := run (ops ++ finish w (run ops)) in
+  exists x' a c, find_job s' b j = Some x' /\ j_state x' = w b j /\ j_attempt x' = Some a /\ a <> -1 /\
+                 find_attempt s' b j a = Some c.
+Proof.
+  intros W G F Al C St s'. pose proof (DInv_reachable ops G) as D. pose proof (DAux_run ops) as A.
+  destruct (always_run_runs w (run ops) b j x W D A F Al C St) as (x' & a & F' & Es & Ea & Na).
+  destruct (can_always_finish w ops W G) as (G' & _).
+  assert (E : s' = run_from (run ops) (finish w (run ops))) by (subst s'; apply Cancel.run_app).
+  rewrite <- E in F'.
+  pose proof (find_jkey_sound _ _ _ _ F') as (Hx' & B' & J').
+  assert (L : legal_history (ops ++ finish w (run ops))) by (apply Pick.good_from_legal; exact G').
+  pose proof (Attempts.current_attempt_exists _ L x' Hx') as Hc. rewrite Ea, B', J' in Hc. destruct Hc as (c & Fc & _).
+  exists x', a, c. auto.
+Qed.
+
+Lemma finish_demo :
+  good_history stuck_history /\
+  map job_view (jobs (run stuck_history)) = [(1, Running, false, Some 1); (2, Pending, false, None); (3, Pending, true, None)] /\
+  group_cancelled (run stuck_history) 1 1 = true /\
+  finish all_succeed (run stuck_history) =
+    [MarkComplete 1 1 1 1 Success None (Some 0) 0; MarkComplete 1 2 (-1) (-1) Cancelled None None 0;
+     ScheduleJob 1 3 2 1; MarkComplete 1 3 2 1 Success None (Some 0) 0] /\
+  let s := run (stuck_history ++ finish all_succeed (run stuck_history)) in
+  map job_view (jobs s) = [(1, Success, false, Some 1); (2, Cancelled, false, None); (3, Success, true, Some 2)] /\
+  map b_running (batches s) = [false].
+Proof.
+  split; [exact stuck_history_good|]. destruct stuck_state as (A & B & _). destruct stuck_finish as (C & D & E & _).
+  split; [exact A|]. split; [exact B|]. split; [exact C|]. split; [exact D | exact E].
+Qed.
